@@ -94,7 +94,15 @@ func main() {
 			if line == "" || strings.HasPrefix(line, "#") {
 				continue
 			}
+			fine := false
+			if strings.HasSuffix(line, " fine") {
+				fine = true
+				line = strings.TrimSpace(strings.TrimSuffix(line, " fine"))
+			}
 			dir := filepath.Join(*repo, line)
+			if fine {
+				finePkgs[dir] = true
+			}
 			ents, err := os.ReadDir(dir)
 			if err != nil {
 				die("sched package %s: %v", line, err)
@@ -355,6 +363,7 @@ func (r *rw) list(in []ast.Stmt) []ast.Stmt {
 }
 
 var timeRedirect map[string]bool
+var finePkgs = map[string]bool{}
 
 func rewriteFile(src, dst string, sched bool) (bool, error) {
 	data, err := os.ReadFile(src)
@@ -425,6 +434,54 @@ func rewriteFile(src, dst string, sched bool) (bool, error) {
 			im.Path.Value = strconv.Quote(vatomicPath)
 			im.Name = ast.NewIdent("atomic")
 			changed = true
+		}
+	}
+	if sched && finePkgs[filepath.Dir(src)] {
+		// statement-level points (fine mode): only inside function bodies
+		for _, d := range f.Decls {
+			fd, ok := d.(*ast.FuncDecl)
+			if !ok || fd.Body == nil {
+				continue
+			}
+			clauseBody := map[*ast.BlockStmt]bool{}
+			ast.Inspect(fd.Body, func(n ast.Node) bool {
+				switch x := n.(type) {
+				case *ast.SelectStmt:
+					clauseBody[x.Body] = true
+				case *ast.SwitchStmt:
+					clauseBody[x.Body] = true
+				case *ast.TypeSwitchStmt:
+					clauseBody[x.Body] = true
+				}
+				return true
+			})
+			ast.Inspect(fd.Body, func(n ast.Node) bool {
+				addFine := func(in []ast.Stmt) []ast.Stmt {
+					var out []ast.Stmt
+					for _, st := range in {
+						switch st.(type) {
+						case *ast.DeclStmt, *ast.EmptyStmt, *ast.LabeledStmt:
+						default:
+							fs := &ast.ExprStmt{X: r.vsx("Fine")}
+							r.done[fs] = true
+							out = append(out, fs)
+						}
+						out = append(out, st)
+					}
+					return out
+				}
+				switch x := n.(type) {
+				case *ast.BlockStmt:
+					if !clauseBody[x] {
+						x.List = addFine(x.List)
+					}
+				case *ast.CaseClause:
+					x.Body = addFine(x.Body)
+				case *ast.CommClause:
+					x.Body = addFine(x.Body)
+				}
+				return true
+			})
 		}
 	}
 	if sched {
